@@ -7,4 +7,5 @@ CONSTANTS
   BinAPats <- MC_ThoroughBinAPats
   BinBPats <- MC_ThoroughBinBPats
   Scalars <- MC_Scalars
+  TwoFull = TRUE
 INVARIANTS TypeOK Contract Abstraction Emit
